@@ -723,7 +723,9 @@ class List(list, base.Symbolic, pg_typing.CustomTyping):
 
   def copy(self) -> 'List':
     """Shallow current list."""
-    return List(super().copy(), value_spec=self._value_spec)
+    # NOTE: a symbolic shallow clone (as `pg.Dict.copy` and `copy.copy` are),
+    # which keeps the flags (sealed, accessor_writable, allow_partial).
+    return self.sym_clone(deep=False)
 
   def append(self, value: Any) -> None:
     """Appends an item."""
